@@ -72,9 +72,29 @@ func C20(c *Ctx) {
 	if dot == nil || mer == nil || ana == nil {
 		return
 	}
+	// each entry point with its function literals and the helpers / methods of the package it calls
+	withHelpers := func(top *ssa.Function) []*ssa.Function {
+		seen := map[*ssa.Function]bool{}
+		var out []*ssa.Function
+		for _, f := range append(ssau.WithAnon(top), pkgClosure(top)...) {
+			if !seen[f] && f.Blocks != nil && prog.PkgOf(f) == "tools" {
+				seen[f] = true
+				out = append(out, f)
+			}
+		}
+		return out
+	}
 	var fns []*ssa.Function
-	for _, f := range []*ssa.Function{dot, mer, ana} {
-		fns = append(fns, ssau.WithAnon(f)...)
+	{
+		seen := map[*ssa.Function]bool{}
+		for _, top := range []*ssa.Function{dot, mer, ana} {
+			for _, f := range withHelpers(top) {
+				if !seen[f] {
+					seen[f] = true
+					fns = append(fns, f)
+				}
+			}
+		}
 	}
 	for _, f := range fns {
 		c.R.Fn(fname(f))
@@ -121,7 +141,7 @@ func C20(c *Ctx) {
 	} {
 		var edgeCall *ssa.Call
 		var proc *ssa.Function
-		for _, f := range ssau.WithAnon(r.top) {
+		for _, f := range withHelpers(r.top) {
 			for _, cl := range fprintfCalls(f, r.edgeFmt) {
 				edgeCall, proc = cl, f
 			}
@@ -460,11 +480,18 @@ func C20(c *Ctx) {
 		}
 		// executed on every call of f
 		if L := flow.InnermostLoop(flow.Loops(f), in.Block()); L != nil {
-			return false, "inside a loop of " + f.Name() + " (cannot establish once per branch)"
-		}
-		for _, b := range f.Blocks {
-			if _, isRet := b.Instrs[len(b.Instrs)-1].(*ssa.Return); isRet && !in.Block().Dominates(b) {
-				return false, f.Name() + " can return without it"
+			// on every trip of that loop of the helper (the loop itself is judged by the completion rule below,
+			// and the helper's call sites as any other)
+			for _, latch := range L.Latch {
+				if !in.Block().Dominates(latch) {
+					return false, "an iteration can continue at " + c.pos(latch.Instrs[len(latch.Instrs)-1]) + " without it"
+				}
+			}
+		} else {
+			for _, b := range f.Blocks {
+				if _, isRet := b.Instrs[len(b.Instrs)-1].(*ssa.Return); isRet && !in.Block().Dominates(b) {
+					return false, f.Name() + " can return without it"
+				}
 			}
 		}
 		// every call of f
